@@ -288,6 +288,15 @@ where
                     remote_needs,
                     mut metrics,
                 } => {
+                    // If we already told the remote that we're done (there was nothing to send
+                    // when the sizes were calculated) we must not send anything else, even if
+                    // the store changed in the meantime: no further operations and no second
+                    // "done" message.
+                    let remote_needs = if sync_done_sent {
+                        LogRanges::default()
+                    } else {
+                        remote_needs
+                    };
                     let mut send_logs_len = remote_needs.len();
                     let span =
                         tracing::error_span!(parent: &state_machine_span, "sync", send_logs_len);
